@@ -224,7 +224,18 @@ def run(ctx):
                   '%s:%s' % (PIEFAC, v.lineno), "'%s' <- value.%s" % (k, k), "cryptographic parameter '%s' is filled from %s" % (k, U(v)))
     vkw = params(bkw)[0]
     for k, v in sorted(fac_kwd.items()):
-        okv = (isinstance(v, ast.Attribute) and isinstance(v.value, ast.Name) and v.value.id == vkw and v.attr == k) or (isinstance(v, ast.Name) and v.id == k)
+        okv = isinstance(v, ast.Attribute) and isinstance(v.value, ast.Name) and v.value.id == vkw and v.attr == k
+        if not okv and isinstance(v, ast.Name):
+            # a local sub-dictionary: built only from fields of a local bound to value.<k>
+            srcs = set(a.targets[0].id for a in walk_local(bkw) if isinstance(a, ast.Assign) and isinstance(a.targets[0], ast.Name) and isinstance(a.value, ast.Attribute)
+                       and isinstance(a.value.value, ast.Name) and a.value.value.id == vkw and a.value.attr == k)
+            dicts = [a.value for a in walk_local(bkw) if isinstance(a, ast.Assign) and isinstance(a.targets[0], ast.Name) and a.targets[0].id == v.id]
+            roots = set()
+            for d in dicts:
+                for x in ast.walk(d):
+                    if isinstance(x, ast.Attribute) and isinstance(x.value, ast.Name) and x.value.id != 'self':
+                        roots.add(x.value.id)
+            okv = bool(srcs) and bool(dicts) and all(isinstance(d, ast.Dict) for d in dicts) and roots <= srcs and bool(roots)
         ctx.check(okv, 'C05.R2', 'ObjectFactory._build_key_wrapping_data|%s' % k, '%s:%s' % (PIEFAC, v.lineno), "'%s' <- value.%s" % (k, k), "key wrapping datum '%s' is filled from %s" % (k, U(v)))
     # converters: constructor parameter <- field of the same role
     n_bind = 0
@@ -330,8 +341,23 @@ def run(ctx):
         ps = params(fn)
         out = {}
         gg = CFG(fn)
-        namevars = {ps[namep_idx]} if namep_idx is not None else {'attribute_name'}
         objv = ps[objp_idx]
+        if namep_idx is not None:
+            namevars = {ps[namep_idx]}
+        else:
+            # the name is the first component of the (name, [index,] value) parameter: x = p[0] or x, ... = p
+            tup = ps[objp_idx + 1]
+            namevars = set()
+            for a_ in walk_local(fn):
+                if isinstance(a_, ast.Assign) and len(a_.targets) == 1:
+                    tg, vv = a_.targets[0], a_.value
+                    if isinstance(tg, ast.Name) and isinstance(vv, ast.Subscript) and isinstance(vv.value, ast.Name) and vv.value.id == tup and isinstance(vv.slice, ast.Constant) and vv.slice.value == 0:
+                        namevars.add(tg.id)
+                    if isinstance(tg, (ast.Tuple, ast.List)) and tg.elts and isinstance(tg.elts[0], ast.Name) and isinstance(vv, ast.Name) and vv.id == tup:
+                        namevars.add(tg.elts[0].id)
+        # locals used as the field-name argument of setattr/getattr/hasattr on the object
+        fieldvars = set(c_.args[1].id for c_ in walk_local(fn) if isinstance(c_, ast.Call) and call_name(c_) in ('setattr', 'getattr', 'hasattr') and len(c_.args) >= 2
+                        and isinstance(c_.args[0], ast.Name) and c_.args[0].id == objv and isinstance(c_.args[1], ast.Name))
         for n in gg.nodes:
             names = []
             for tt, lab in dominating_edges(gg, n):
@@ -345,7 +371,7 @@ def run(ctx):
                 for x in ast.walk(e):
                     if isinstance(x, ast.Attribute) and isinstance(x.value, ast.Name) and x.value.id == objv:
                         out.setdefault(names[0], set()).add(x.attr)
-                    if isinstance(x, ast.Constant) and isinstance(x.value, str) and isinstance(x._parent, ast.Assign) and isinstance(x._parent.targets[0], ast.Name) and x._parent.targets[0].id == 'field':
+                    if isinstance(x, ast.Constant) and isinstance(x.value, str) and isinstance(x._parent, ast.Assign) and isinstance(x._parent.targets[0], ast.Name) and x._parent.targets[0].id in fieldvars:
                         out.setdefault(names[0], set()).add(x.value)
         return out
     helpers = {'_get_attribute_index_from_managed_object': chain_fields('_get_attribute_index_from_managed_object', 1, 0),
